@@ -536,10 +536,15 @@ def eff_overflow(d, opts):
 
 
 def domain(e, opts, console):
-    """'in' | 'out' | 'f23' for a renderable in EXPOSED position (its lines reach the output uncropped) under `opts`:
-    'out'  = outside what C01 claims (overflow="ignore" text, an explicit end="", a Constrain/Align narrower than the child's
-             structural minimum, a table whose columns are not free to wrap);
-    'f23'  = inside, except that a ProgressBar is followed by a sibling in a group (known finding progressbar-no-newline)."""
+    """'in' | 'out' | 'f23' | 'floor:<n>' for a renderable in EXPOSED position (its lines reach the output uncropped) under `opts`:
+    'out'  = outside what C01 claims: text / str with effective overflow="ignore", a text / rule / title / caption `end` other
+             than "\n" (for texts and rules "" is inside too), a group member that does not end its line followed by a sibling,
+             a table with width / min_width / no_wrap columns that does not meet the budget of C07's width_bound_general
+             (`table_general`; tables whose columns are free to wrap, ratio columns included, are inside), Columns(width=0);
+    'floor:<n>' = such a table within the budget whose min_width binds: it may be n cells wider (evaluated for a root table only);
+    'f23'  = inside, except that a ProgressBar is followed by a sibling in a group (known finding progressbar-no-newline).
+    Wider than the Lean `Dom` on purpose: Constrain / Align at any inner width, an explicit Table(width=...) and
+    Columns(width >= 1) are evaluated everywhere (NOT DISCHARGED in Props/C01.lean: no counterexample is known)."""
     k = e[0]
     res = "in"
 
